@@ -386,6 +386,8 @@ def write_evidence(pid, tier, level, coverage, assumptions, wall, violations, se
         "coverage": coverage, "assumptions": assumptions,
         "wall_s": round(wall, 2), "violations": violations,
     }
+    if os.environ.get("VF_NO_EVIDENCE"):
+        return None     # partial (--only) and replay runs do not overwrite the evidence of full runs
     os.makedirs(os.path.join(VERIF, "evidence"), exist_ok=True)
     p = os.path.join(VERIF, "evidence", "%s.json" % pid)
     tmp = p + ".tmp"
@@ -412,6 +414,25 @@ def write_replay(pid, n, doc):
         json.dump(doc, f, indent=1, sort_keys=True)
         f.write("\n")
     return p
+
+
+_REPLAY_DOC = None
+
+
+def replay_doc(name):
+    """./vf replay <file>: the recorded counterexample for query `name`, or None.
+    Engines then skip the solver and run only the native replay of that input
+    against the current tree."""
+    global _REPLAY_DOC
+    p = os.environ.get("VF_REPLAY_FILE")
+    if not p:
+        return None
+    if _REPLAY_DOC is None:
+        with open(p) as f:
+            _REPLAY_DOC = json.load(f)
+    if _REPLAY_DOC.get("query") != name or not _REPLAY_DOC.get("inputs"):
+        return None
+    return {int(k): int(v) for k, v in _REPLAY_DOC["inputs"].items()}
 
 
 def log(*a):
